@@ -53,6 +53,12 @@ func NewFuzzySearcher(indexReader search.Reader, term string,
 		return nil, fmt.Errorf("invalid fuzziness, negative")
 	}
 
+	if fuzziness == 0 {
+		// edit distance 0: the term itself (there is no automaton to build)
+		return NewMultiTermSearcher(indexReader, []string{term}, field, boost, scorer,
+			compScorer, options, true)
+	}
+
 	// Note: we don't byte slice the term for a prefix because of runes.
 	prefixTerm := ""
 	for i, r := range term {
